@@ -1,15 +1,16 @@
 import AnySyncModel.Core.Wire
-import AnySyncModel.Sync.Net
+import AnySyncModel.Sync.SnapStep
 /-! line protocol for area `sync` (C01); stateful.
 
   new <n>                          → `ok`
-  add <r> <c> <parents>            → `ok <set r> <heads r>[ | <msgs>]`
-  dlv <mid> <bh> <bq> [<heads>/<changes> …]
-                                   → `ok <set dst> <heads dst>[ | <msgs>]`
-  sync <r> <q>                     → `ok <set r> <heads r> | <msg>`
+  add <r> <c> <parents> <isSnap> <snapshot base>
+                                   → `ok <set r> <heads r> @<root r>[ | <msgs>]`
+  dlv <mid> <bh> <bq> <new root of dst> [<heads>/<changes> …]
+                                   → `ok <set dst> <heads dst> @<root dst>[ | <msgs>]`
+  sync <r> <q>                     → `ok <set r> <heads r> @<root r> | <msg>`
   drop <mid>                       → `ok`
   dup <mid> <newmid>               → `ok`
-  state                            → `ok <set 0> <heads 0> ; <set 1> <heads 1> ; …`
+  state                            → `ok <set 0> <heads 0> @<root 0> ; <set 1> <heads 1> @<root 1> ; …`
 
   msg = `<mid>:H/<src>/<dst>/<heads>/<changes>` | `<mid>:Q/<src>/<dst>/<heads>` | `<mid>:R/…`
   lists are comma separated, `-` when empty.  A step the model rejects answers `bad-step`.
@@ -24,11 +25,11 @@ def showMsg (p : Nat × Msg) : String :=
   | .req  => s!"{p.1}:Q/{m.src}/{m.dst}/{showNats m.heads}"
   | .resp => s!"{p.1}:R/{m.src}/{m.dst}/{showNats m.heads}/{showNats m.changes}"
 
-def showReplica (s : State) (r : Nat) : String :=
-  s!"{showNats (canon s.dag (s.get r))} {showNats (heads s.dag (s.get r))}"
+def showReplica (ss : SState) (r : Nat) : String :=
+  s!"{showNats (canon ss.base.dag (ss.base.get r))} {showNats (heads ss.base.dag (ss.base.get r))} @{ss.root r}"
 
-def showStep (s : State) (actor : Nat) (out : List (Nat × Msg)) : String :=
-  let base := s!"ok {showReplica s actor}"
+def showStep (ss : SState) (actor : Nat) (out : List (Nat × Msg)) : String :=
+  let base := s!"ok {showReplica ss actor}"
   if out.isEmpty then base else base ++ " | " ++ " ".intercalate (out.map showMsg)
 
 def parseBatch (t : String) : Option (List Nat × List Nat) :=
@@ -40,52 +41,52 @@ def parseBatches : List String → Option (List (List Nat × List Nat))
   | [] => some []
   | t :: rest => do let b ← parseBatch t; let bs ← parseBatches rest; pure (b :: bs)
 
-/-- run one op; on success print the actor's replica and the emitted messages -/
-def exec (s : State) (op : Op) (actor : Nat) : Option State × String :=
-  match stepE s op with
-  | none => (some s, "bad-step")
-  | some (s1, out) =>
-    let s2 := enqueue s1 out
-    (some s2, showStep s2 actor (number s.nextMid out))
+/-- run one op of the annotated model; `bop` is its base operation (for the emitted messages) -/
+def exec (ss : SState) (op : SOp) (bop : Op) (actor : Nat) : Option SState × String :=
+  match stepE ss.base bop, sstep ss op with
+  | some (_, out), some ss' => (some ss', showStep ss' actor (number ss.base.nextMid out))
+  | _, _ => (some ss, "bad-step")
 
-def step (st : Option State) (line : String) : Option State × String :=
+def step (st : Option SState) (line : String) : Option SState × String :=
   match st, tokens line with
   | _, ["new", n] =>
     match n.toNat? with
-    | some k => if 1 ≤ k ∧ k ≤ 8 then (some (init k), "ok") else (st, "bad-op")
+    | some k => if 1 ≤ k ∧ k ≤ 8 then (some (sinit k), "ok") else (st, "bad-op")
     | none => (st, "bad-op")
-  | some s, ["add", r, c, ps] =>
-    match r.toNat?, c.toNat?, natList? ps with
-    | some r, some c, some ps => exec s (.add r c ps) r
-    | _, _, _ => (st, "bad-op")
-  | some s, "dlv" :: mid :: bh :: bq :: rest =>
-    match mid.toNat?, bool? bh, bool? bq, parseBatches rest with
-    | some mid, some bh, some bq, some resps =>
-      match findMsg s mid with
-      | some m => exec s (.deliver mid bh bq resps) m.dst
+  | some ss, ["add", r, c, ps, isSnap, sbase] =>
+    match r.toNat?, c.toNat?, natList? ps, bool? isSnap, sbase.toNat? with
+    | some r, some c, some ps, some isSnap, some sbase =>
+      -- the snapshot base the real change cites must be the adder's root
+      if sbase ≠ ss.root r then (st, "bad-step") else exec ss (.add r c ps isSnap) (.add r c ps) r
+    | _, _, _, _, _ => (st, "bad-op")
+  | some ss, "dlv" :: mid :: bh :: bq :: root :: rest =>
+    match mid.toNat?, bool? bh, bool? bq, root.toNat?, parseBatches rest with
+    | some mid, some bh, some bq, some root, some resps =>
+      match findMsg ss.base mid with
+      | some m => exec ss (.deliver mid bh bq resps root) (.deliver mid bh bq resps) m.dst
       | none => (st, "bad-step")
-    | _, _, _, _ => (st, "bad-op")
-  | some s, ["sync", r, q] =>
+    | _, _, _, _, _ => (st, "bad-op")
+  | some ss, ["sync", r, q] =>
     match r.toNat?, q.toNat? with
-    | some r, some q => exec s (.sync r q) r
+    | some r, some q => exec ss (.sync r q) (.sync r q) r
     | _, _ => (st, "bad-op")
-  | some s, ["drop", mid] =>
+  | some ss, ["drop", mid] =>
     match mid.toNat? with
     | some mid =>
-      match AnySync.Sync.step s (.drop mid) with
-      | some s' => (some s', "ok")
+      match sstep ss (.drop mid) with
+      | some ss' => (some ss', "ok")
       | none => (st, "bad-step")
     | none => (st, "bad-op")
-  | some s, ["dup", mid, nm] =>
+  | some ss, ["dup", mid, nm] =>
     match mid.toNat?, nm.toNat? with
     | some mid, some nm =>
-      if nm ≠ s.nextMid then (st, "bad-step") else
-      match AnySync.Sync.step s (.dup mid) with
-      | some s' => (some s', "ok")
+      if nm ≠ ss.base.nextMid then (st, "bad-step") else
+      match sstep ss (.dup mid) with
+      | some ss' => (some ss', "ok")
       | none => (st, "bad-step")
     | _, _ => (st, "bad-op")
-  | some s, ["state"] =>
-    (st, "ok " ++ " ; ".intercalate ((List.range s.n).map (showReplica s)))
+  | some ss, ["state"] =>
+    (st, "ok " ++ " ; ".intercalate ((List.range ss.base.n).map (showReplica ss)))
   | _, _ => (st, "bad-op")
 
 end AnySync.Driver.Sync
